@@ -678,6 +678,13 @@ class Check:
         return os.path.join(OUTROOT, "replay", "%s-%s.json" % (self.pid, re.sub(r"[^\w.\-]", "_", tag)))
 
     def add_violation(self, obligation, replay, text, confirmed):
+        hidden = self.extra.get("hidden_state")
+        if hidden and not confirmed:
+            # the extracted interpreter carries state between iterations that the harnesses can only treat as arbitrary (no
+            # invariant is available for it): an obligation that fails without a failing run of the real code may be failing
+            # for an unreachable value of that state.  Undecided, not a violation.
+            self.undecided.append("%s %s -- not confirmed on the real code; the interpreter has hidden loop-carried state (%s) that the harness treats as arbitrary" % (obligation, text, ", ".join(hidden)))
+            return
         self.violations.append({"obligation": obligation, "replay": replay, "text": text, "confirmed": confirmed})
 
     def evidence(self, status):
@@ -758,10 +765,11 @@ class Check:
             self.evidence("violation")
             return 1
         if infra or self.undecided:
-            for m in infra:
-                print("UNDECIDED property=%s reason=%s" % (self.pid, m))
-            for m in self.undecided:
-                print("UNDECIDED property=%s obligation=%s" % (self.pid, m))
+            lines = ["UNDECIDED property=%s reason=%s" % (self.pid, m) for m in infra] + ["UNDECIDED property=%s obligation=%s" % (self.pid, m) for m in self.undecided]
+            for l in lines[:4]:
+                print(l)
+            if len(lines) > 4:
+                print("(%d more undecided items for %s listed in %s)" % (len(lines) - 4, self.pid, os.path.join(VERIF, "evidence", self.pid + ".json")))
             self.evidence("undecided")
             return 2
         self.evidence("pass")
